@@ -31,6 +31,7 @@ def base_program(r, nfiles):
     for i, m in enumerate(mods):
         path = "/%s.sy" % m
         lines, pos = [], []
+        pos.append((path, 0, "outer"))
         # a module may import a later module (chain) or an earlier one (cycle / diamond)
         if i + 1 < len(mods) and r.random() < 0.7:
             lines.append("use %s" % mods[i + 1])
@@ -57,6 +58,7 @@ def base_program(r, nfiles):
 
     path = "/main.sy"
     lines, pos = [], []
+    pos.append((path, 0, "outer"))
     styles = []
     for m in mods:
         st = r.randrange(3)
@@ -76,6 +78,15 @@ def base_program(r, nfiles):
     pos.append((path, len(lines), "outer"))
     add_fn(lines, pos, path, "helper", ["n: int"],
            ["acc := 0", "i := 0", "acc = acc + n", "ret acc + i"], ret="int")
+    # positions inside an if-branch and inside a loop body of `helper` (before its `ret`)
+    k = lines.index("    ret acc + i")
+    block = ["    if n > 0 do", "        acc = acc + 1", "    end", "    loop i < 3 do", "        i = i + 1", "    end"]
+    lines[k:k] = block
+    pos[:] = [(p, (i + len(block) if i >= k else i), c) for (p, i, c) in pos]
+    pos.append((path, k + 1, "inner"))          # first statement of the if-branch
+    pos.append((path, k + 2, "inner"))          # end of the if-branch
+    pos.append((path, k + 4, "inner-loop"))     # inside the loop
+    pos.append((path, k + 5, "inner-loop"))
     pos.append((path, len(lines), "outer"))
     body = ["x := k_main + 1", "y := helper(x)"]
     for m, st in zip(mods, styles):
@@ -145,7 +156,15 @@ def p_bad_definition(r, ctx, names):
 def p_bad_expression(r, ctx, names):
     if not ctx.startswith("inner"):
         return dict(insert=["be_%d :: 1 +" % r.randint(0, 9)])
-    return dict(insert=["    " + r.choice(["be := 1 +", "be := (1", "be := [1, 2", "be := 1 2"])])
+    return dict(insert=["    " + r.choice(["be := 1 +", "be := 1 2", "be := 1 + * 2", "be := f(1,, 2)"])])
+
+
+def p_unclosed_bracket(r, ctx, names):
+    """the parser can only notice at the first token that cannot continue the bracket (newlines are skipped inside
+    brackets): any later line of the same file is accepted (counted separately in the evidence), line 0 is not"""
+    if not ctx.startswith("inner"):
+        return dict(insert=["ub_%d :: (1" % r.randint(0, 9)], later_ok=True)
+    return dict(insert=["    " + r.choice(["ub := (1", "ub := [1, 2", "ub := f(1, 2"])], later_ok=True)
 
 
 def p_not_outer(r, ctx, names):
@@ -212,7 +231,7 @@ def p_annotation_mismatch(r, ctx, names):
 
 
 def p_break_outside(r, ctx, names):
-    if not ctx.startswith("inner"):
+    if not ctx.startswith("inner") or ctx == "inner-loop":
         return None
     return dict(insert=["    " + r.choice(["break", "continue"])])
 
@@ -228,10 +247,17 @@ def p_missing_end(r, ctx, names):
     return dict(insert=[], remove_end=True, eof=True)
 
 
+def p_control(r, ctx, names):
+    """nothing planted: only the preceding-text shape; the program must still be accepted"""
+    return dict(insert=[], control=True)
+
+
 PLANTERS = {
+    "control": p_control,
     "syntax:stray-token": p_stray_token,
     "syntax:bad-definition": p_bad_definition,
     "syntax:bad-expression": p_bad_expression,
+    "syntax:unclosed-bracket": p_unclosed_bracket,
     "syntax:not-an-outer-statement": p_not_outer,
     "syntax:missing-end": p_missing_end,
     "unresolved-name": p_unresolved,
@@ -282,6 +308,7 @@ def plant(r, files, pos, kind, shape, uid):
     out = {q: render(ls, "plain") for q, ls in files.items()}
     out[path] = render(new, shape)
     return dict(files=out, file=path, line=planted + 1, allowed_lines=allowed, kind=kind, shape=shape, ctx=ctx,
+                later_ok=bool(p.get("later_ok")),
                 needs_std=bool(p.get("needs_std")), eof=bool(p.get("eof")), nlines=len(new),
                 want_kind=p.get("kind") or ("Syntax" if kind.startswith("syntax") else None))
 
